@@ -40,6 +40,10 @@ def main():
     thorough = rep.tier == "thorough"
     worlds = THOROUGH if thorough else QUICK
     findings = liferun.run(rep, worlds, max_paths=None if thorough else 24, maxlen=12, seed=rep.seed, procs=a.procs)
+    # direction B: TLC-simulated behaviours executed on real objects, recorded as traces, validated by TLC (TraceLife)
+    from .. import tracelife
+    tw = worlds if thorough else [("EOF", True, False, True), ("POP", True, False, True), ("CPCCA", False, True, False), ("MCA", True, False, True)]
+    findings += tracelife.run(rep, tw, num=40 if thorough else 8, depth=18 if thorough else 14, seed=rep.seed, procs=a.procs)
     liferun.report_findings(rep, findings, TAGS)
     # non-vacuity: each deviation the invariants are meant to exclude gives a counterexample
     for cap, dev in C14_DEVS:
